@@ -168,6 +168,9 @@ class UAIReader(object):
         """
         domain = {}
         var_domain = self.grammar.parseString(self.network)["domain_variables"]
+        if isinstance(var_domain, str):
+            # a single variable: the results name holds the token itself
+            var_domain = [var_domain]
         for var in range(0, len(var_domain)):
             domain["var_" + str(var)] = var_domain[var]
         return domain
